@@ -138,8 +138,9 @@ def C01_spec_unterminated_bare_c(case, params):
 
 
 def C01_spec_title_last_column(case, params):
-    """F-C01-spec-title-last-column: the title (no message block) has exactly w columns once its trailing blanks are
-    dropped, and what is written is that title without its last character"""
+    """F-C01-spec-title-last-column: the title line (no message block) has a non-blank character in column w (80 or 128;
+    any content, e.g. a trailing '&'; tabs expanded, text beyond column w ignored), and what is written is that title
+    without the character in column w (and without the blanks that then end it)"""
     if case.get("kind") != KIND_RT or "text" not in case:
         return False
     w = case["width"]
@@ -149,4 +150,5 @@ def C01_spec_title_last_column(case, params):
     t = _uncut(raws[0])[:w].rstrip(" ")
     if t.upper().startswith("MESSAGE:") or len(t) != w:
         return False
-    return case.get("title_read") == t and case.get("title_written") == t[:-1]
+    # what is written is right-stripped again (write_to_file), so blanks before the lost character go as well
+    return case.get("title_read") == t and case.get("title_written") == t[:-1].rstrip(" ")
